@@ -118,7 +118,7 @@ func run(c *vf.Ctx) {
 		e.cells = append(e.cells, cell{"gogit", s, 0})
 	}
 	e.cells = append(e.cells, cell{"git", ggGit, 0}, cell{"git", ggHTTP, 2})
-	nScen := c.N(18, 126)
+	nScen := c.N(18, 90)
 	perScen := c.N(5, len(e.cells))
 	var mu sync.Mutex
 	sampled := 0
@@ -134,7 +134,7 @@ func run(c *vf.Ctx) {
 			return
 		}
 		sc.Kind, sc.RefSpecs, sc.Force, sc.Lease = "ff", []string{"refs/heads/ok/ff:refs/heads/ok/ff"}, false, false
-		res := e.exchange(sc, cell{"gogit", ggGit, 0}, 999, 75*time.Second)
+		res := e.exchange(sc, cell{"gogit", ggGit, 0}, 999, 45*time.Second)
 		os.RemoveAll(res.remote)
 		os.RemoveAll(res.local)
 		os.RemoveAll(sc.remote0)
@@ -205,17 +205,17 @@ func run(c *vf.Ctx) {
 	wantCells := 7
 	if !ggGitPushEnds {
 		wantCells = 5
-		c.Assume("OBSERVATION (not judged, the statement is about successful pushes): a push to the go-git git:// server (backend.Serve over a TCP stream, filesystem storage) did not end within 75 s in the probe: transport.ReceivePack -> packfile.UpdateObjectStorage -> copyPackfile copies the pack until EOF, which a git:// client (git or go-git) does not send before reading the report-status; the two git:// cells with a go-git server are skipped")
+		c.Assume("OBSERVATION (not judged, the statement is about successful pushes): a push to the go-git git:// server (backend.Serve over a TCP stream, filesystem storage) did not end within 45 s in the probe: transport.ReceivePack -> packfile.UpdateObjectStorage -> copyPackfile copies the pack until EOF, which a git:// client (git or go-git) does not send before reading the report-status; the two git:// cells with a go-git server are skipped")
 	}
 	c.Extra("git_invocations", gitx.Calls.Load())
-	c.Floor("exchanges judged", c.Counter("exchanges"), c.N(55, 500))
-	c.Floor("pushes reported successful", c.Counter("push_ok"), c.N(25, 250))
+	c.Floor("exchanges judged", c.Counter("exchanges"), c.N(55, 350))
+	c.Floor("pushes reported successful", c.Counter("push_ok"), c.N(25, 180))
 	c.Floor("cells with a successful push", c.SeenCount("cells_ok"), wantCells)
-	c.Floor("non-fast-forward refused (remote unchanged)", c.Counter("rule_nonff_refused"), c.N(3, 15))
-	c.Floor("non-fast-forward applied when forced", c.Counter("rule_force_applied"), c.N(3, 15))
-	c.Floor("explicit delete / prune applied", c.Counter("rule_delete_applied")+c.Counter("rule_prune_applied"), c.N(3, 15))
-	c.Floor("lease mismatch refused", c.Counter("rule_lease-bad_refused"), c.N(3, 15))
-	c.Floor("lease match applied", c.Counter("rule_lease-ok_applied"), c.N(3, 15))
+	c.Floor("non-fast-forward refused (remote unchanged)", c.Counter("rule_nonff_refused"), c.N(3, 10))
+	c.Floor("non-fast-forward applied when forced", c.Counter("rule_force_applied"), c.N(3, 10))
+	c.Floor("explicit delete / prune applied", c.Counter("rule_delete_applied")+c.Counter("rule_prune_applied"), c.N(3, 10))
+	c.Floor("lease mismatch refused", c.Counter("rule_lease-bad_refused"), c.N(3, 10))
+	c.Floor("lease match applied", c.Counter("rule_lease-ok_applied"), c.N(3, 10))
 	c.Assume("a push that returns an error is a refusal: then only the safety clauses are judged (forbidden updates not applied, every ref holds its old or its requested value, remote still passes fsck); which of the permitted updates a refusing client still sends differs between git (per-ref) and go-git (all-or-nothing on the client side) and is not judged")
 	c.Assume("overwriting an existing tag without force is not part of the statement and is not judged beyond 'old or requested value'")
 	c.Assume("git clients enforce fast-forward and lease rules themselves; against go-git servers they exercise the server's handling of whatever git sends (incl. protocol.version=2 fallback for receive-pack)")
@@ -548,7 +548,7 @@ func (e *env) goGitPush(sc *scenario, cl cell, res *result, budget time.Duration
 	}()
 	select {
 	case <-done:
-	case <-time.After(budget + 30*time.Second):
+	case <-time.After(budget + min(30*time.Second, budget/4)):
 		res.timeout = true
 		return
 	}
